@@ -425,7 +425,7 @@ def check_property(pid, tier, seed):
         mark('models done')
         cov['model_configs'] = mres
         mq, mt, _ = MODEL_PLAN.get(pid, ([], [], []))
-        m1progs, m1stats = m1.generate(mq + (mt if tier == 'thorough' else []), 24 if tier == 'quick' else 150, scratch, seed) if mq else ([], {})
+        m1progs, m1stats = m1.generate(mq + (mt if tier == 'thorough' else []), 24 if tier == 'quick' else 150, scratch, seed, pool=6 if tier == 'quick' else 8) if mq else ([], {})
         cov['m1'] = m1stats
         mark('m1 generated')
         gated = gated + m1progs
@@ -619,6 +619,13 @@ def check_property(pid, tier, seed):
         rng2 = random.Random(seed)
         rng2.shuffle(elig)
         sample = sorted(elig[:60 if tier == 'quick' else 900], key=lambda e: len(e['events']))[:24 if tier == 'quick' else 600]
+        # ... plus replays of TLC-generated behaviours and corpus programs (each family once more)
+        seen_f = set(e['prog']['family'] for e in sample)
+        for e in elig:
+            f = e['prog']['family']
+            if (f.startswith('m1:') or e['prog']['id'].startswith('K')) and f not in seen_f and e not in sample:
+                seen_f.add(f)
+                sample.append(e)
 
         def conf(e):
             try:
